@@ -182,3 +182,20 @@ Proof.
   - eexists. split; [vm_compute; reflexivity|]. vm_compute. split; reflexivity.
   - eexists. split; [vm_compute; reflexivity|]. vm_compute. split; [reflexivity | discriminate].
 Qed.
+
+(* through the C API, after ANY sequence of C calls: with auto-learning disabled chewing_handle_Enter (the commit), on
+   every keyboard layout and with any modifier bits, leaves the dictionary as it was - in every state but the one
+   where Enter is the explicit add-phrase gesture (a range is marked with Shift-arrows) *)
+From LC Require Import Proofs.EdInstProofs Proofs.CapiKeysProofs Proofs.CapiInv Proofs.EngineTiles Proofs.CapiEnter.
+Theorem C08_handle_Enter_with_learning_disabled_keeps_the_dictionary_after_any_C_calls : forall ss d ab t0 ops c mods c',
+  ss_good ss -> ss_cursor ss = None -> md_fine d -> Forall cop_fine ops ->
+  crun mf_conv (cx_init d ab ss t0) ops = Ok c ->
+  (mods < 16)%N -> o_no_learn (opts (sh (cx_ed c))) = true -> (forall mv, st (cx_ed c) <> Highlighting mv) ->
+  cstep mf_conv c (CHandle kc_Enter mods) = Ok c' ->
+  dict (sh (cx_ed c')) = dict (sh (cx_ed c)) /\ o_no_learn (opts (sh (cx_ed c'))) = true.
+Proof.
+  intros ss d ab t0 ops c mods c' Hg Hf Hd Hops H Hm Hn Hst Hs.
+  apply (c_enter_with_learning_disabled_keeps_the_dictionary mf_conv ss c mods c'); try assumption.
+  exact (crun_inv mf_conv mf_conv_tiles ss Hg Hf ops (cx_init d ab ss t0) c Hops (cx_init_inv ss d ab t0 Hg Hf Hd) H).
+Qed.
+Print Assumptions C08_handle_Enter_with_learning_disabled_keeps_the_dictionary_after_any_C_calls.
